@@ -76,7 +76,7 @@ func runC13(c *an.Ctx) {
 		}
 	}
 	c.Count("functions_analysed", len(scope))
-	c.RequireMin("IntValue methods and fast-path functions", len(scope), 25)
+	c.RequireMin("IntValue methods and fast-path functions", len(scope), 10)
 	nOps := 0
 	for fn, what := range scope {
 		for _, b := range fn.Blocks {
@@ -221,7 +221,7 @@ func runC13(c *an.Ctx) {
 	if dropped == 0 {
 		c.Hold("errors|vm/neovm|IntValue-operations", "the error of an integer operation must not be dropped", "-", fmt.Sprintf("%d call sites", checked))
 	}
-	c.RequireMin("IntValue operation call sites in the executor", checked, 10)
+	c.RequireMin("IntValue operation call sites in the executor", checked, 4)
 }
 
 // excludesMinOverNegOne: the division is dominated by a branch that excludes
